@@ -9,6 +9,7 @@ import (
 
 	cid "github.com/ipfs/go-cid"
 	peer "github.com/libp2p/go-libp2p-core/peer"
+	multiaddr "github.com/multiformats/go-multiaddr"
 )
 
 var vrfEntries = map[string]func(){
@@ -41,7 +42,7 @@ func vrfSymbolicOptions(now int64, anyFactors bool) api.PinOptions {
 		unset := vrf_and(o.ReplicationFactorMin == 0, o.ReplicationFactorMax == 0)
 		vrf_assume(vrf_or(unset, vrfFactorsValid(o.ReplicationFactorMin, o.ReplicationFactorMax)))
 	}
-	if vrf_choice("has_expiry", 2) == 1 {
+	if vrf_param("expiry") == 1 && vrf_choice("has_expiry", 2) == 1 {
 		delta := vrf_nondet_int64("expire_minus_now")
 		vrf_assume(vrf_or(delta <= -vrfSecond, delta >= vrfSecond))
 		vrf_assume(vrf_and(delta > -vrfSecond*1000000, delta < vrfSecond*1000000))
@@ -55,6 +56,11 @@ func vrfSymbolicOptions(now int64, anyFactors bool) api.PinOptions {
 			o.Metadata[k] = vrf_nondet_string("meta_" + k)
 		}
 	}
+	for i := 0; i < vrf_param("origins"); i++ {
+		if vrf_choice("has_origin", 2) == 1 {
+			o.Origins = append(o.Origins, vrfOrigin(i))
+		}
+	}
 	if vrf_param("user_allocs") == 1 {
 		for i := 0; i < 2; i++ {
 			if vrf_choice("user_alloc", 2) == 1 {
@@ -63,6 +69,42 @@ func vrfSymbolicOptions(now int64, anyFactors bool) api.PinOptions {
 		}
 	}
 	return o
+}
+
+var vrfOriginStrs = []string{
+	"/ip4/1.2.3.4/tcp/4001/p2p/QmZHKZDavkvNfA9gSAg7HALv8jF7BJaKjUc9U2LSuvUySB",
+	"/dns4/example.org/tcp/4001/p2p/QmP63DkAFEnDYNjDYBpyNDfttu1fvUw99x1brscPzpqmmq",
+}
+
+// vrfMaddr is a minimal multiaddr.Multiaddr: an origin is identified by its text
+type vrfMaddr struct{ s string }
+
+func (a *vrfMaddr) MarshalJSON() ([]byte, error)     { return []byte(`"` + a.s + `"`), nil }
+func (a *vrfMaddr) UnmarshalJSON([]byte) error        { return nil }
+func (a *vrfMaddr) MarshalText() ([]byte, error)      { return []byte(a.s), nil }
+func (a *vrfMaddr) UnmarshalText([]byte) error        { return nil }
+func (a *vrfMaddr) MarshalBinary() ([]byte, error)    { return []byte(a.s), nil }
+func (a *vrfMaddr) UnmarshalBinary([]byte) error      { return nil }
+func (a *vrfMaddr) Equal(b multiaddr.Multiaddr) bool  { return b != nil && a.s == b.String() }
+func (a *vrfMaddr) Bytes() []byte                     { return []byte(a.s) }
+func (a *vrfMaddr) String() string                    { return a.s }
+func (a *vrfMaddr) Protocols() []multiaddr.Protocol   { return nil }
+func (a *vrfMaddr) Encapsulate(multiaddr.Multiaddr) multiaddr.Multiaddr { return a }
+func (a *vrfMaddr) Decapsulate(multiaddr.Multiaddr) multiaddr.Multiaddr { return a }
+func (a *vrfMaddr) ValueForProtocol(int) (string, error) { return "", nil }
+
+func vrfOrigin(i int) multiaddr.Multiaddr { return &vrfMaddr{vrfOriginStrs[i]} }
+
+func vrfOriginsEqual(a, b []multiaddr.Multiaddr) bool {
+	if len(a) != len(b) {
+		return false
+	}
+	for i := range a {
+		if !a[i].Equal(b[i]) {
+			return false
+		}
+	}
+	return true
 }
 
 func vrfMetaEqual(a, b map[string]string) bool {
@@ -193,11 +235,12 @@ func VrfC04Pin() {
 	hadKey := existing != nil && len(existing.Metadata) > len(optsCopy.Metadata)
 	vrf_note_bool("metadata_key_removed", hadKey)
 	vrf_assert(vrfMetaEqual(stored.Metadata, optsCopy.Metadata), "C04.pin.options-stored.metadata")
+	vrf_assert(vrfOriginsEqual(stored.Origins, optsCopy.Origins), "C04.pin.options-stored.origins")
 	vrf_assert(stored.Type == api.DataType, "C04.pin.type-data")
 
 	// identical options (an existing entry and nothing changed)?
 	same := false
-	if existing != nil && vrfMetaEqual(optsCopy.Metadata, existing.Metadata) {
+	if existing != nil && vrfMetaEqual(optsCopy.Metadata, existing.Metadata) && vrfOriginsEqual(optsCopy.Origins, existing.Origins) {
 		same = vrf_and(vrf_and(optsCopy.Name == existing.Name, optsCopy.Mode == existing.Mode),
 			vrf_and(vrf_and(effMin == existing.ReplicationFactorMin, effMax == existing.ReplicationFactorMax),
 				vrf_and(optsCopy.ExpireAt.Equal(existing.ExpireAt), len(optsCopy.UserAllocations) == 0)))
